@@ -40,10 +40,12 @@ Proof.
       split; cbn [y_fdt y_edt y_dt]; rewrite ?A, ?B, ?O1, ?O2, D; apply promote_absorb.
   - destruct (negb (same_axes h o)); cbn [fst]; auto. destruct (negb (nonneg _)); cbn [fst]; auto. split; reflexivity.
   - destruct (kind_dt k) as [d|]; cbn [fst]; auto.
+    destruct (Qcltb c 0); cbn [fst]; auto.
     pose proof (dcoerce_cons h d Hc) as [A B]. pose proof (dcoerce_dt h d) as D.
     destruct (negb (nonneg _)); cbn [fst]; [split; auto|].
     split; cbn [y_fdt y_edt y_dt]; rewrite ?A, ?B, D; apply promote_absorb.
   - destruct (kind_dt k) as [d|]; cbn [fst]; auto.
+    destruct (Qcltb c 0); cbn [fst]; auto.
     pose proof (dcoerce_cons h (promote F64 d) Hc) as [A B]. pose proof (dcoerce_dt h (promote F64 d)) as D.
     destruct (negb (nonneg _)); cbn [fst]; [split; auto|].
     split; cbn [y_fdt y_edt y_dt]; rewrite ?A, ?B, D; destruct (dt_is_int d); auto;
@@ -78,9 +80,9 @@ Proof.
   intros K D. cbn [dstep]. rewrite K. cbn [fst y_dt]. rewrite dcoerce_dt. apply promote_float_absorbs; auto.
 Qed.
 
-Theorem division_promotes h c k d : kind_dt k = Some d -> dt_is_int (y_dt (fst (dstep h (DDiv c k)))) = false.
+Theorem division_promotes h c k d : kind_dt k = Some d -> Qcltb c 0 = false -> dt_is_int (y_dt (fst (dstep h (DDiv c k)))) = false.
 Proof.
-  intros K. cbn [dstep]. rewrite K.
+  intros K Hc. cbn [dstep]. rewrite K, Hc.
   assert (G : dt_is_int (promote (y_dt h) (promote F64 d)) = false).
   { apply promote_float_absorbs. destruct d; reflexivity. }
   destruct (negb (nonneg _)); cbn [fst y_dt]; rewrite ?dcoerce_dt; exact G.
